@@ -5,6 +5,7 @@
     the two -- "expiration must exceed the period" -- concerns C12/C13 only and
     lives in Inst_Timer.v.) *)
 From MW Require Import Base Store Monad.
+From MW Require Import Inst_Writes.   (* the write statements of the current source are the modelled ones *)
 From MWGen Require Import GenParams.
 
 Lemma gen_exp_pos : 0 < gen_exp.
